@@ -136,6 +136,8 @@ pub fn run_case(ctx: &Ctx, sz: &Sizes, case: u64) {
     let rlog: Arc<Mutex<Vec<RRec>>> = Arc::new(Mutex::new(Vec::new()));
     let sd = sender_done.clone();
     let sd2 = sender_done.clone();
+    let overrun = Arc::new(AtomicBool::new(false));
+    let overrun2 = overrun.clone();
     let (rl, ops2) = (rlog.clone(), ops.clone());
     let res = watch("c10-receiver", 20_000, &move || sd.load(Ordering::SeqCst), move || {
         let wait = start.saturating_sub(now_ns());
@@ -183,7 +185,11 @@ pub fn run_case(ctx: &Ctx, sz: &Sizes, case: u64) {
             let mut l = rl.lock().unwrap();
             l.pop();
             l.push(RRec { op: "try_recv_timeout".into(), d_us: 2000, call, ret, res: resd, body_ok });
-            if stop || l.len() > 400 {
+            if stop {
+                break;
+            }
+            if l.len() > 20_000 {
+                overrun2.store(true, Ordering::SeqCst);
                 break;
             }
         }
@@ -209,6 +215,20 @@ pub fn run_case(ctx: &Ctx, sz: &Sizes, case: u64) {
             None
         },
     };
+    // the history is only complete once the sender has carried out its whole schedule; on a
+    // starved machine that can take long, and an incomplete history decides nothing
+    if overrun.load(Ordering::SeqCst) || !sender_done.load(Ordering::SeqCst) {
+        let t0 = now_ns();
+        while !sender_done.load(Ordering::SeqCst) && now_ns() - t0 < 30_000_000_000 {
+            std::thread::sleep(Duration::from_millis(1));
+        }
+        if problems.is_empty() {
+            rep.inconclusive(&format!("c10 case {}: sender schedule not finished when the receive sequence ended (machine starved?)", case));
+            final_go.store(true, Ordering::SeqCst);
+            let _ = sender.join();
+            return;
+        }
+    }
     // ---- offline check of the stamped history
     let rl = rlog.lock().unwrap().clone();
     let sl: Vec<SRec> = slog.lock().unwrap().iter().filter(|s| s.seq != 9999).cloned().collect();
